@@ -54,6 +54,9 @@ class Monitor:
         self.closed.add(branch)
         if not branch.closed:
             self.fail('AFTER_BRANCH_CLOSE for a branch that is not closed')
+        # the tableau announces the closure after updating its own books
+        if any(b is branch for b in self.tab.open):
+            self.fail('the tableau announced a closed branch that its open view still lists')
 
     def after_rule_apply(self, target):
         self.steps += 1
